@@ -1,6 +1,8 @@
 """C18 - fast FFT lengths are the nearest 7-smooth numbers for every N."""
 
 import bisect
+import signal
+import threading
 from fractions import Fraction as F
 
 import numpy as np
@@ -22,6 +24,17 @@ JOBS = {"quick": 4, "thorough": 16}
 LEVEL = "exploration"
 
 
+CALL_DEADLINE_S = 20.0
+
+
+class CallTimeout(Exception):
+    """The library call did not return within CALL_DEADLINE_S seconds."""
+
+
+def _on_alarm(signum, frame):
+    raise CallTimeout(f"no result within {CALL_DEADLINE_S:.0f} s")
+
+
 class FastLenMonitor:
     def __init__(self, ctx):
         self.ctx = ctx
@@ -33,9 +46,14 @@ class FastLenMonitor:
         return self
 
     def pre(self, point, args, kwargs):
+        # a pure integer function: no answer within CALL_DEADLINE_S is reported (CallTimeout raised inside the call), not waited for
+        if threading.current_thread() is threading.main_thread():
+            signal.setitimer(signal.ITIMER_REAL, CALL_DEADLINE_S)
         return None
 
     def post(self, point, args, kwargs, tok, res, exc):
+        if threading.current_thread() is threading.main_thread():
+            signal.setitimer(signal.ITIMER_REAL, 0)
         ctx = self.ctx
         o = point.label
         N = args[0] if args else kwargs.get("N")
@@ -94,8 +112,15 @@ def wl_smooth(ctx, idx, rng):
             cand.append(int(s + 1 + rng.integers(0, min(nxt - s - 1, 2 ** 62))))
         for N in cand:
             if 0 <= N < 2 ** 62:
-                nf(N)
-                pf(N)
+                Na = N
+                if rng.random() < 0.15:
+                    # the length as a NumPy integer scalar (len() of an array shape, a header field): narrowest type that holds N, or int64
+                    for t_ in (np.int32, np.uint32, np.int64, np.uint64):
+                        if N <= np.iinfo(t_).max and rng.random() < 0.6:
+                            Na = t_(N)
+                            break
+                nf(Na)
+                pf(Na)
                 pts.append(N)
     ctx.describe_case({"around_smooth": pts[:6]})
     if idx % 500 == 0:
@@ -189,6 +214,7 @@ def workloads(ctx):
 
 
 def setup(ctx):
+    signal.signal(signal.SIGALRM, _on_alarm)
     FastLenMonitor(ctx).install()
     return probes.detach_all
 
